@@ -2,6 +2,7 @@ package main
 
 import (
 	"os"
+	"runtime"
 	"sort"
 	"strings"
 	"sync"
@@ -130,6 +131,13 @@ func runCase(c *Case) *Result {
 	f := c.Faults
 	res.FaultFree = f.Error+f.Panic+f.Slow+f.Reenter+f.Abort+f.Goexit == 0
 	zzsim.SetMapSalt(c.MapSalt)
+	zzsim.SetPoolDrop(!c.PoolsRetain)
+	if c.PoolsRetain {
+		// start from empty pools whatever this process ran before (a pool is
+		// emptied by two collections: primary to victim cache, victim to nothing)
+		runtime.GC()
+		runtime.GC()
+	}
 
 	var ref, sh *World
 	var wantRaw, gotRaw [][]lazyOut
